@@ -352,6 +352,79 @@ class World:
         return self._finish(step, dst, wire, True, kind)
 
 
+    def op_call(self, step):
+        """one raw API call on the node's current instance (call-history exploration)"""
+        n = self.nodes[step["n"]]
+        what = step["what"]
+        if n.inst is None or n.impl != "real":
+            self.skipped += 1
+            return self.log(step, "skip")
+        if what in ("start", "start_fail"):
+            saved = n.entropy.mode
+            if what == "start_fail":
+                n.entropy.mode = "fail"
+            r = self._call(n, "start", n.inst.start)
+            n.entropy.mode = saved
+            if r[0] == "exc":
+                n.calls.append(("start", "exc:" + r[1]))
+                return self.log(step, "exc:" + r[1], what=what)
+            n.calls.append(("start", "msg"))
+            if n.out is None and isinstance(r[1], bytes):
+                n.out = r[1]
+            ev = self.log(step, "msg", dg(r[1]), what=what)
+            ev["msg"] = r[1]
+            return ev
+        if what == "serialize":
+            r = self._call(n, "serialize", n.inst.serialize)
+            if r[0] == "exc":
+                n.calls.append(("serialize", "exc:" + r[1]))
+                return self.log(step, "exc:" + r[1], what=what)
+            n.calls.append(("serialize", "blob"))
+            ev = self.log(step, "blob", dg(r[1]), what=what)
+            ev["blob"] = r[1]
+            return ev
+        if what == "restore":
+            r = self._call(n, "serialize", n.inst.serialize)
+            if r[0] == "exc":
+                n.calls.append(("serialize", "exc:" + r[1]))
+                return self.log(step, "exc:" + r[1], what=what, phase="serialize")
+            blob = r[1]
+            K = self.lib.classes[n.cur_cls]
+            P = n.lparams()
+            r2 = self._call(n, "from_serialized", lambda: K.from_serialized(blob, params=P))
+            if r2[0] == "exc":
+                n.calls.append(("restore", "exc:" + r2[1]))
+                return self.log(step, "exc:" + r2[1], what=what, phase="from_serialized")
+            n.inst = r2[1]
+            n.restores += 1
+            n.calls = [("restore", "inst")]
+            ev = self.log(step, "inst", dg(blob), what=what)
+            ev["blob"] = blob
+            return ev
+        if what.startswith("finish_"):
+            g = n.mparams().group
+            cls = n.cur_cls
+            acc = {"A": b"B", "B": b"A", "S": b"S"}[cls]
+            k = what[7:]
+            if k == "valid":
+                wire = acc + g.enc(g.mul(g.base, int(step.get("k", 7))))
+            elif k == "own_side":
+                wire = (cls.encode() if cls != "S" else b"A") + g.enc(g.mul(g.base, 3))
+            elif k == "unknown_side":
+                wire = bytes([step.get("v", 0x43)]) + g.enc(g.mul(g.base, 3))
+            elif k == "reflected":
+                wire = acc + (n.out[1:] if isinstance(n.out, bytes) else g.enc(g.base))
+            elif k == "undecodable":
+                wire = acc + (b"\x00" * g.elem_size if step.get("v", 0) % 2 == 0 else b"\x01\x02\x03")
+            elif k == "identity":
+                wire = acc + g.enc(g.identity)
+            else:
+                raise ValueError(what)
+            ev = self._finish(step, n, wire, True, "call:" + k)
+            ev["what"] = what
+            return ev
+        raise ValueError(what)
+
     def resolve_body(self, body, pset, dst=None):
         """bytes of an adversary-built element encoding (no label)"""
         mp = worlds.model_params(self.psets[pset])
@@ -363,6 +436,9 @@ class World:
             return g.enc(g.mul(g.base, int(body.get("k", 5))))
         if kind == "own":
             return dst.out[1:] if dst is not None and isinstance(dst.out, bytes) else b""
+        if kind == "reflect_variant":
+            from .props.c06 import resolve_variant
+            return resolve_variant(self, body, dst)
         base = b"?" + g.enc(g.mul(g.base, int(body.get("base_k", 1))))
         ctx = faults.Ctx(g, mp, dst.out if dst is not None else None, [m.out for m in self.nodes])
         wire, _ = faults.apply(body, base, ctx)
